@@ -69,7 +69,7 @@ def scan(repo: Repo) -> RuleRun:
         r,
         repo,
         ["modify.find.finder.FinderBase._find_by_position", "util.functions.is_point_on_plane"],
-        scan_modules=("modify.find.finder", "modify.find.geometric", "modify.find.shape"),
+        scan_modules=("modify.find.finder", "modify.find.geometric", "modify.find.shape", "modify.reorient.viewpoint"),
     )
     for q in ("modify.find.finder.FinderBase._find_by_position", "util.functions.is_point_on_plane"):
         fq = repo.func(q)
@@ -300,9 +300,15 @@ def triangle_partition(repo: Repo) -> RuleRun:
             return q
         if isinstance(call.func, ast.Attribute) and call.func.attr == "get_common_point":
             return Sym("corner")
+        if isinstance(call.func, ast.Attribute) and call.func.attr == "get_closest_side":
+            # the block already shows its front to the observer and its top to the ceiling - which says nothing about handedness
+            arg = ev.eval(call.args[0]) if call.args else None
+            return "front" if arg == Sym("OBSERVER") else "top"
         return NO_MATCH
 
     this = Obj("reorienter", cls=repo.cls("modify.reorient.viewpoint.ViewpointReorienter"))
+    this.set("observer", Sym("OBSERVER"))
+    this.set("ceiling", Sym("CEILING"))
     op = Obj("operation")
     op.set("point_array", Sym("points"))
     op.set("center", Sym("center"))
